@@ -109,12 +109,13 @@ Step(a) == LET r == ImplStep(st, a, Now)
            IN /\ st' = r.t
               /\ hist' = Append(hist, a)
               /\ (IF f = {} THEN TRUE ELSE PrintT(<<"DESIGN", ToJson([f |-> f, op |-> a.op, cls |-> ActClass(a)])>>))
-Assign(a) == na < NASSIGN /\ Step(a) /\ na' = na + 1 /\ nr' = nr
-DoFirstAccess == ~st.present /\ Assign([op |-> "FirstAccess"])
-DoSetStr      == \E a \in ALPHA.str : Assign(a)
-DoSetDate     == \E a \in ALPHA.date : Assign(a)
-DoSetRev      == \E a \in ALPHA.rev : Assign(a)
-DoLoadLexical == st.present /\ \E a \in ALPHA.lex : Assign(a)
+Assign(a) == Step(a) /\ na' = na + 1 /\ nr' = nr
+\* the budget test stands before the quantifier: the alphabet is not even enumerated on states without budget
+DoFirstAccess == na < NASSIGN /\ ~st.present /\ Assign([op |-> "FirstAccess"])
+DoSetStr      == na < NASSIGN /\ \E a \in ALPHA.str : Assign(a)
+DoSetDate     == na < NASSIGN /\ \E a \in ALPHA.date : Assign(a)
+DoSetRev      == na < NASSIGN /\ \E a \in ALPHA.rev : Assign(a)
+DoLoadLexical == na < NASSIGN /\ st.present /\ \E a \in ALPHA.lex : Assign(a)
 DoSaveReopen  == na >= 1 /\ nr < NREOPEN /\ Step([op |-> "SaveReopen"]) /\ nr' = nr + 1 /\ na' = na
 Next == DoFirstAccess \/ DoSetStr \/ DoSetDate \/ DoSetRev \/ DoLoadLexical \/ DoSaveReopen
 Spec == Init /\ [][Next]_vars
